@@ -54,6 +54,8 @@ FN[r'atomic_guarded::compare_exchange'] = dict(
               'succeeds exactly when the current value equals the expected one, and then installs the desired value'),
              ('C15', '(!vf_exc && !__CPROVER_return_value) ==> (vf_cs_entry_v != __CPROVER_old(expected->v) && expected->v == vf_cs_entry_v && self->m_obj.v == vf_cs_entry_v)',
               'otherwise reports the current value in `expected` and leaves the object unchanged'),
+             ('C20', 'vf_exc ==> (self->m_obj.v == vf_cs_entry_v || self->m_obj.torn || self->m_obj.v == __CPROVER_old(desired->v))',
+              'if the comparison or an assignment throws, the stored value is the old one, the complete desired one, or what T\'s failed assignment leaves'),
              ('C20', 'vf_user_threw == (vf_exc != 0)', 'an exception thrown by user code propagates; nothing else throws'),
              ('C15 C20', 'G(self)', 'wrapper invariant'), ('', G3, 'counters')],
     assigns='*expected, desired->v, desired->torn, self->m_mutex, self->m_obj.v, self->m_obj.torn, ' + GHOST_ASSIGNS)
